@@ -13,7 +13,7 @@ from vlib import build
 from vlib.gens import common as g
 from vlib.models import sighash_ref as ref
 from vlib.models import tx_ref
-from vlib.runner import REPO, HarnessError, Outcome, SubCheck, Violation
+from vlib.runner import VERIF, HarnessError, Outcome, SubCheck, Violation
 
 PROPERTY = "C09"
 LEVEL = "exploration"
@@ -28,7 +28,7 @@ ASSUMPTIONS = [
 
 
 def validate_models() -> None:
-    path = os.path.join(REPO, "tests/script/_data/sig_hash_legacy_test_vectors.json")
+    path = os.path.join(VERIF, "vectors/sig_hash_legacy_test_vectors.json")
     d = json.load(open(path))[1:]
     for raw, script, idx, ht, res in d:
         tx = tx_ref.parse(bytes.fromhex(raw))
